@@ -5,6 +5,7 @@ package main
 import (
 	"bufio"
 	"os"
+	"syscall"
 	"fmt"
 	"io"
 	"os/exec"
@@ -262,6 +263,7 @@ var solverBin = map[string][]string{
 func startSolver(kind string) (*Solver, error) {
 	a := solverBin[kind]
 	cmd := exec.Command(a[0], a[1:]...)
+	cmd.SysProcAttr = &syscall.SysProcAttr{Pdeathsig: syscall.SIGKILL} // solvers die with gosmx
 	in, err := cmd.StdinPipe()
 	if err != nil {
 		return nil, err
